@@ -28,7 +28,10 @@ Inductive nev :=
 | NRemove (k : nat)             (* remove_ent *)
 | NReAdd (k : nat)              (* add_ent of a removed entity *)
 | NGc (k : nat)                 (* __del__ *)
-| NCopy (k : nat).              (* ent.copy() then add_ent: the copied key value is the desired ID *)
+| NCopy (k : nat)               (* ent.copy() then add_ent: the copied key value is the desired ID *)
+| NReserve (d : Z).             (* round 3: instancing.Instance.fixup_key on a node-link keyvalue: get_id(d) on the
+                                   map's node_id manager, kept only in the Instance's own table -- no entity owns
+                                   the ID and nothing ever releases it (a leak, harmless for uniqueness) *)
 
 Section node.
   Variables realloc_on_add release_on_remove release_in_del : bool.
@@ -100,6 +103,11 @@ Section node.
                       {| nman := m; nents := <[k := {| nid := key; nalive := true; ninmap := true |}]> (nents w) |}
                     else w
         | None => w end
+    | NReserve d =>
+        match get_id d (nman w) with
+        | Some (_, m) => {| nman := m; nents := nents w |}
+        | None => w
+        end
     | NGc k =>
         match nents w !! k with
         | Some o => if nalive o && negb (ninmap o) then
